@@ -100,7 +100,7 @@ pub trait DID:
 
 #[derive(Clone, PartialEq, Eq, PartialOrd, Ord, Hash, serde::Deserialize, serde::Serialize)]
 #[repr(transparent)]
-#[serde(into = "BaseDIDUrl", try_from = "BaseDIDUrl")]
+#[serde(into = "BaseDIDUrl", try_from = "String")]
 /// A wrapper around [`BaseDIDUrl`](BaseDIDUrl).
 pub struct CoreDID(BaseDIDUrl);
 
@@ -111,6 +111,7 @@ impl CoreDID {
   ///
   /// Returns `Err` if the input is not a valid [`DID`].
   pub fn parse(input: impl AsRef<str>) -> Result<Self, Error> {
+    check_parser_can_scan(input.as_ref())?;
     Self::try_from(BaseDIDUrl::parse(input)?)
   }
 
@@ -132,6 +133,8 @@ impl CoreDID {
   /// Set the method-specific-id of the [`DID`].
   pub fn set_method_id(&mut self, value: impl AsRef<str>) -> Result<(), Error> {
     Self::valid_method_id(value.as_ref())?;
+    // Do not build a DID that `parse` has to refuse (see `check_parser_can_scan`).
+    check_parser_can_scan(&format!("did:{}:{}", self.method(), value.as_ref()))?;
     self.0.set_method_id(value);
     Ok(())
   }
@@ -276,6 +279,35 @@ impl KeyComparable for CoreDID {
   fn key(&self) -> &Self::Key {
     self
   }
+}
+
+/// Guards the calls into `did_url_parser`: version 0.3.0 of that crate reads one character too many after a
+/// percent-encoded octet of the method-specific-id, so a DID whose method-specific-id ends with such an octet
+/// (`did:example:a%41`) makes it slice past the end of the input and panic. Such DIDs are refused here.
+pub(crate) fn check_parser_can_scan(input: &str) -> Result<(), Error> {
+  let bytes: &[u8] = input
+    .trim_matches(|ch: char| ch.is_ascii_control() || ch.is_ascii_whitespace())
+    .as_bytes();
+  // The method-specific-id starts after the second colon and ends at the first `/`, `?` or `#`.
+  let Some(mut index) = bytes
+    .iter()
+    .enumerate()
+    .filter(|(_, byte)| **byte == b':')
+    .nth(1)
+    .map(|(i, _)| i + 1)
+  else {
+    return Ok(());
+  };
+  while index < bytes.len() {
+    match bytes[index] {
+      b'/' | b'?' | b'#' => return Ok(()),
+      b'%' if index + 3 == bytes.len() => return Err(Error::InvalidMethodId),
+      // the octet and the character the parser skips after it
+      b'%' => index += 4,
+      _ => index += 1,
+    }
+  }
+  Ok(())
 }
 
 /// Checks whether a character satisfies DID method name constraints:
